@@ -86,6 +86,9 @@ class Agent:
         return (list(oid), v)
 
     def getbulk(self, oids, non_repeaters, max_repetitions):
+        starve = self.bulk_policy.get("starve") if self.bulk_policy else None
+        if starve is not None and oids and not list(oids[0]) < list(starve):
+            return []  # nothing left to say (e.g. to a completion request)
         n = max(0, min(non_repeaters, len(oids)))
         out = [self.getnext(o) for o in oids[:n]]
         cur = [list(o) for o in oids[n:]]
@@ -137,6 +140,11 @@ class Agent:
         if self.budget is not None and len(self.log) >= self.budget:
             raise AgentStop(f"request budget {self.budget} exceeded")
         resp = self.respond(bytes(data))
+        if resp is None:
+            from puresnmp.exc import Timeout
+
+            self.raw_log.append((bytes(data), b""))
+            raise Timeout("no reply (message discarded without a report)")
         if self.mitm:
             resp = self.mitm(self, bytes(data), resp)
         self.raw_log.append((bytes(data), resp))
@@ -158,6 +166,10 @@ class Agent:
     # ------------------------------------------------------------------ v3
     def _report(self, msg, stat, flags=0, user=b"", auth_user=None):
         v3 = self.v3
+        if not msg["flags"] & 4:
+            # RFC 3412 7.1 (3b): no Report-PDU for a message whose reportableFlag is clear — it is
+            # discarded silently and the sender runs into its timeout
+            return None
         pdu_rid = 0
         if "scoped" in msg:
             pdu_rid = msg["scoped"]["pdu"]["request_id"]
